@@ -450,6 +450,52 @@ fn closure_creation_templates(rep: &mut Report) {
     }
 }
 
+/// C04: hand-written twins around *identity and freshness*, which value-level generated programs rarely compare: a
+/// function literal, cell, iterator or container built from constants is still built anew by every evaluation, with
+/// constants visible (`K` -> the literal) or hidden (`K` -> `hi(..)`) alike
+fn identity_twin_templates(rep: &mut Report) {
+    let cases: [&str; 24] = [
+        "k := K5; mk := () -> () -> int { return () -> int { return k } }; a := mk(); b := mk(); (a == b, a == a, a(), b())",
+        "mk := () -> () -> int { return () -> int { return K5 } }; a := mk(); b := mk(); (a == b, a != b, [a] == [b])",
+        "fs := [1, 2]~ @ (i: int) -> () -> int { return () -> int { return K5 } } $]; (fs[0] == fs[1], fs[0](), fs[1]())",
+        "k := K5; fs := mut [() -> int] []; for i in [1, 2]~ { fs += [() -> int { return k }]; }; g := *fs; (g[0] == g[1], g[0]())",
+        "mk := () -> mut int { return mut K5 }; a := mk(); b := mk(); a += 1; (a == b, *a, *b)",
+        "cs := [1, 2]~ @ (i: int) -> mut int { return mut K5 } $]; cs[0] += 1; (cs[0] == cs[1], *cs[0], *cs[1])",
+        "r := [mut K5; 2]; r[0] += 1; (r[0] == r[1], *r[0], *r[1])",
+        "mk := () -> () -> (bool, int) { return [K5, K5]~ }; a := mk(); b := mk(); a(); (a == b, a().0, b().0, b().0, b().0)",
+        "k := K5; f := () -> [mut int] { return [mut k] }; a := f(); b := f(); a[0] = 1; (*a[0], *b[0], a == b)",
+        "k := K5; f := () -> struct{c: mut int} { return struct{c := mut k} }; a := f(); b := f(); a.c += 1; (*a.c, *b.c, a == b)",
+        "k := K5; f := () -> (mut int, int) { return (mut k, k) }; a := f(); b := f(); a.0 += 1; (*a.0, *b.0, a == b)",
+        "m := () -> struct{c: mut int, get: () -> int} { return mod { c := mut K5; get := () -> int { return *c } } }; a := m(); b := m(); a.c += 1; (a.get(), b.get(), a.get == b.get)",
+        "f := (x: int) -> int { return x + K5 }; g := f; h := (x: int) -> int { return x + K5 }; (f == g, f == h, f(1) == h(1))",
+        "t := (() -> int { return K5 }, () -> int { return K5 }); (t.0 == t.1, t.0() == t.1())",
+        "a := [() -> int { return K5 }; 2]; (a[0] == a[1], a[0]())",
+        "k := K5; a := if k > 0 { () -> int { return k } } else { () -> int { return 0 } }; b := if k > 0 { () -> int { return k } } else { () -> int { return 0 } }; (a == b, a(), b())",
+        "w := K5; n := mut 0; while *n < 2 { n += 1; }; f := () -> int { return w + *n }; g := () -> int { return w + *n }; (f == g, f())",
+        "mk := (k: int) -> () -> int { return () -> int { return k } }; (mk(K5) == mk(K5), mk(K5)())",
+        "it := [K5, K5 + 1]~; jt := [K5, K5 + 1]~; it(); (it == jt, it().1, jt().1)",
+        "c := mut K5; d := c; e := mut K5; c += 1; (c == d, c == e, *d, *e)",
+        "k := K5; s := struct{a := mut k, b := mut k}; s.a += 1; (s.a == s.b, *s.a, *s.b)",
+        "k := K5; mk := () -> () -> int { x := k + 1; return () -> int { return x } }; (mk() == mk(), mk()())",
+        "mk := () -> [() -> int] { return [() -> int { return K5 }] }; (mk()[0] == mk()[0], mk() == mk())",
+        "k := K5; cmp := (p: () -> int, q: () -> int) -> bool { return p == q }; f := () -> int { return k }; (cmp(f, f), cmp(f, () -> int { return k }), cmp(() -> int { return k }, () -> int { return k }))",
+    ];
+    for tpl in cases {
+        let lit = format!("hi := (v: int) -> int {{ return v }}; {}", tpl.replace("K5", "5"));
+        let hid = format!("hi := (v: int) -> int {{ return v }}; {}", tpl.replace("K5", "hi(5)"));
+        rep.evaluations += 2;
+        rep.count("identity-twin-templates");
+        let show = |src: &str| match run_real(src, FUEL).outcome {
+            Outcome::Value(v) => canon(&v),
+            other => other.tag(),
+        };
+        let (a, b) = (show(&lit), show(&hid));
+        if a != b {
+            rep.violation(&format!("c04:identity-twin-template:{}", truncate(tpl, 60)), &format!("literal twin `{lit}` gave {a}; hidden twin gave {b}"), "diff", &format!("#template {b}\n{lit}\n"));
+        }
+    }
+}
+
 pub fn run(cfg: &Cfg, rep: &mut Report, spec: &Spec) {
     let deadline = Deadline::new(cfg.budget_s);
     if spec.prop == "C07" && cfg.shard == 0 {
@@ -463,6 +509,9 @@ pub fn run(cfg: &Cfg, rep: &mut Report, spec: &Spec) {
     }
     if spec.prop == "C06" && cfg.shard == 0 {
         closure_creation_templates(rep);
+    }
+    if spec.prop == "C04" && cfg.shard == 0 {
+        identity_twin_templates(rep);
     }
     if spec.prop == "C11" {
         crate::props::c11seq::run(cfg, rep);
